@@ -18,5 +18,6 @@ CONSTANTS
   Coarse = TRUE
   MutPrecedence = FALSE
   MutNoCatch = FALSE
+  MutKilledEscapes = FALSE
   KilledMayRaise = TRUE
 INVARIANTS TypeOK PassOnlyIfClean VerdictModuloKnown OrderIndependenceModuloKnown ExitNonZeroIffNotAllPass ValidNeverAbstract OneOutputPerQuery
